@@ -13,6 +13,7 @@ import (
 	"crypto/tls"
 	"errors"
 	"fmt"
+	"io"
 	"net"
 	"net/http"
 	"sort"
@@ -509,10 +510,11 @@ func (rc *rawConn) close() {
 }
 
 type rawResp struct {
-	status int
-	hdr    http.Header
-	body   []byte
-	err    error
+	status  int
+	hdr     http.Header
+	body    []byte
+	bodyCut bool // the body read ended with an error (request timeout on a lossy network), not EOF
+	err     error
 }
 
 // do sends one HTTP/3 request with full control over method, authority, path and headers.
@@ -540,17 +542,19 @@ func (rc *rawConn) do(method, host, path string, hdr http.Header, body []byte, t
 	defer resp.Body.Close()
 	var b []byte
 	buf := make([]byte, 2048)
+	complete := false
 	for {
 		n, rerr := resp.Body.Read(buf)
 		b = append(b, buf[:n]...)
 		if rerr != nil {
+			complete = rerr == io.EOF
 			break
 		}
 		if len(b) > 1<<20 {
 			break
 		}
 	}
-	return rawResp{status: resp.StatusCode, hdr: resp.Header, body: b}
+	return rawResp{status: resp.StatusCode, hdr: resp.Header, body: b, bodyCut: !complete}
 }
 
 type readCloser struct{ *strings.Reader }
